@@ -83,7 +83,19 @@ def make_pems():
     from cryptography.hazmat.primitives.asymmetric import ec
     import asn1
     now = datetime.datetime(2024, 1, 1, tzinfo=datetime.timezone.utc)
-    ca_key = ec.generate_private_key(ec.SECP256R1())
+
+    # keys are derived from fixed scalars: every run of the check works on the same keys
+    def find_key(curve, start, pred=None):
+        size = (curve.key_size + 7) // 8
+        d = start
+        while True:
+            key = ec.derive_private_key(d, curve)
+            nums = key.public_key().public_numbers()
+            full = nums.x >> (8 * (size - 1)) and nums.y >> (8 * (size - 1))
+            if (pred is None and full) or (pred is not None and pred(nums.x, nums.y, size)):
+                return key
+            d += 1
+    ca_key = find_key(ec.SECP256R1(), 0xCA0001)
     ca_name = x509.Name([x509.NameAttribute(NameOID.COMMON_NAME, 'verif CA')])
     ca = (x509.CertificateBuilder().subject_name(ca_name).issuer_name(ca_name).public_key(ca_key.public_key())
           .serial_number(1).not_valid_before(now - datetime.timedelta(days=3650)).not_valid_after(now + datetime.timedelta(days=3650))
@@ -92,7 +104,7 @@ def make_pems():
           .add_extension(x509.SubjectKeyIdentifier.from_public_key(ca_key.public_key()), critical=False)
           .add_extension(x509.AuthorityKeyIdentifier.from_issuer_public_key(ca_key.public_key()), critical=False)
           .sign(ca_key, hashes.SHA256()))
-    ee_key = ec.generate_private_key(ec.SECP256R1())
+    ee_key = find_key(ec.SECP256R1(), 0xEE0001)
     enc = asn1.Encoder()
     enc.start()
     enc.write(SRC, asn1.Numbers.IA5String)
@@ -119,7 +131,7 @@ def make_pems():
         e2.start()
         e2.write(eid, asn1.Numbers.IA5String)
         return x509.OtherName(x509.ObjectIdentifier('1.3.6.1.5.5.7.8.11'), e2.output())
-    ca2_key = ec.generate_private_key(ec.SECP256R1())
+    ca2_key = find_key(ec.SECP256R1(), 0xCA2001)
     ca2_name = x509.Name([x509.NameAttribute(NameOID.COMMON_NAME, 'some other CA')])
     variants = {
         'other-node-id': (ca_key, ca_name, [other_name('dtn://evil/')]),
@@ -127,8 +139,24 @@ def make_pems():
         'dns-san-only': (ca_key, ca_name, [x509.DNSName('src.example')]),
         'untrusted-issuer': (ca2_key, ca2_name, [other_name(SRC)]),
     }
+    # certificates that DO bind their key to the security source, over keys of other shapes: public points with a
+    # leading zero octet in x or in y, the larger curves, P-521 points with and without the top bit of a coordinate
+    top = lambda v, size: v >> (8 * (size - 1))
+    shapes = {
+        'shape-p256-x-leading-zero': (ec.SECP256R1(), lambda x, y, n: not top(x, n) and top(y, n)),
+        'shape-p256-y-leading-zero': (ec.SECP256R1(), lambda x, y, n: top(x, n) and not top(y, n)),
+        'shape-p384': (ec.SECP384R1(), None),
+        'shape-p384-x-leading-zero': (ec.SECP384R1(), lambda x, y, n: not top(x, n) and top(y, n)),
+        'shape-p521-top-bits-set': (ec.SECP521R1(), lambda x, y, n: x >> 520 and y >> 520),
+        'shape-p521-x-short': (ec.SECP521R1(), lambda x, y, n: not x >> 520 and y >> 520),
+        'shape-p521-y-short': (ec.SECP521R1(), lambda x, y, n: x >> 520 and not y >> 520),
+    }
+    shape_keys = {}
+    for (k, (vname, (curve, pred))) in enumerate(sorted(shapes.items())):
+        variants[vname] = (ca_key, ca_name, [other_name(SRC)])
+        shape_keys[vname] = find_key(curve, 0x5A0001 + 0x1000 * k, pred)
     for (serial, (vname, (iss_key, iss_name, san))) in enumerate(sorted(variants.items()), 10):
-        vkey = ec.generate_private_key(ec.SECP256R1())
+        vkey = shape_keys.get(vname) or find_key(ec.SECP256R1(), 0xBAD001 + 0x100 * serial)
         bld = (x509.CertificateBuilder().subject_name(x509.Name([x509.NameAttribute(NameOID.COMMON_NAME, vname)]))
                .issuer_name(iss_name).public_key(vkey.public_key()).serial_number(serial)
                .not_valid_before(now - datetime.timedelta(days=3650)).not_valid_after(now + datetime.timedelta(days=3650))
@@ -147,6 +175,8 @@ def make_pems():
 
 
 WRONG_CERTS = ('other-node-id', 'no-san', 'dns-san-only', 'untrusted-issuer')
+KEY_SHAPES = ('shape-p256-x-leading-zero', 'shape-p256-y-leading-zero', 'shape-p384', 'shape-p384-x-leading-zero',
+              'shape-p521-top-bits-set', 'shape-p521-x-short', 'shape-p521-y-short')
 
 
 def set_pems(pems):
@@ -622,9 +652,65 @@ def run_wrong_cert(params, known):
                 samples=[], verdicts=verdicts, report_keys=['verdicts'])
 
 
+def run_key_shapes(params, known):
+    '''"Verifies with the right key", over the shapes a right key can have: signer certificates bound to
+    the security source whose public point has a leading zero octet in x or in y, on P-256 / P-384 / P-521,
+    P-521 points with and without the top bit of a coordinate.  The source signs with the real transmit
+    chain (COSE_Sign1, x5chain); the unmodified bundle is delivered, one with an altered payload is not.'''
+    from .. import env as _env
+    _env.load_bp()
+    set_pems(params['pems'])
+    prop = params.get('prop', PROP)
+    violations = []
+    keys = []
+    verdicts = {}
+    for shape in KEY_SHAPES:
+        keys.append(shape)
+        case = dict(source='sign1-x5chain', alteration='none', keymode='right', with_ca=True, key_shape=shape)
+        try:
+            data = source_protect('sign1-x5chain', [1], cert_variant=shape)
+        except Exception as err:
+            # (also: the agent cannot even load a configuration that names this key)
+            import traceback
+            v = Violation(prop, 'integrity', 'source-cannot-apply-integrity-block', dict(key=shape),
+                          'signer key %s: %s: %s\n%s' % (shape, type(err).__name__, str(err)[:600], traceback.format_exc()[-700:])).as_dict()
+            v['case'] = dict(case, protected='', altered='')
+            violations.append(v)
+            continue
+        (world, delivered, reasons) = verify(data, 'right', True)
+        if world.escaped:
+            v = Violation(prop, 'integrity', 'exception-escaped-idle-callback', dict(exc=world.escaped[-1][0], key=shape),
+                          '%s: %s' % (world.escaped[-1][0], world.escaped[-1][2])).as_dict()
+        elif not delivered:
+            v = Violation(prop, 'integrity', 'unmodified-bundle-rejected', dict(key=shape), 'signer key %s: reasons %r, errors %r'
+                          % (shape, reasons, world.api_errors[:1])).as_dict()
+        else:
+            v = None
+        if v is not None:
+            v['case'] = dict(case, protected=data.hex(), altered=data.hex())
+            violations.append(v)
+            continue
+        verdicts['verified-' + shape] = 1
+        # the same bundle with the last payload octet changed (block CRCs are none in this bundle)
+        dec = B.decode(data)
+        alt = dict(primary={k: v2 for (k, v2) in dec['primary'].items() if k not in ('span', 'crc', 'crc_ok')},
+                   blocks=[{k: v2 for (k, v2) in b.items() if k not in ('span', 'crc', 'crc_ok')} for b in dec['blocks']])
+        pay = alt['blocks'][-1]['data']
+        alt['blocks'][-1]['data'] = pay[:-1] + bytes([pay[-1] ^ 1])
+        altered = B.encode(alt)
+        (world, delivered, reasons) = verify(altered, 'right', True)
+        if delivered:
+            v = Violation(prop, 'integrity', 'altered-bundle-verified', dict(key=shape), 'signer key %s: payload altered, still delivered' % shape).as_dict()
+            v['case'] = dict(case, protected=data.hex(), altered=altered.hex(), alteration='payload-last-octet')
+            violations.append(v)
+    return dict(name=params['name'], evaluations=2 * len(keys), nontrivial_keys=['key-shape:%s' % k for k in keys], violations=violations, known=[],
+                samples=[], verdicts=verdicts, report_keys=['verdicts'])
+
+
 def scenarios(tier):
     out = []
     pems = make_pems()
+    out.append(dict(name='sign1-key-shapes', kind='enum', runner='run_key_shapes', params=dict(name='sign1-key-shapes', pems=pems), weight=2))
     out.append(dict(name='sign1-wrong-certificate', kind='enum', runner='run_wrong_cert',
                     params=dict(name='sign1-wrong-certificate', pems=pems), weight=1))
 
@@ -658,6 +744,7 @@ def scenarios(tier):
 ASSUMPTIONS = [
     'trusted base: pycose and cryptography primitives; certificate path validation by the harness stand-in for certvalidator',
     'the covered tuple (external AAD, target data, protected bucket, tag/signature, result type, context id) is computed by vmc/oracle/cose_aad.py from the independently decoded bundle',
+    'right key, asymmetric case: signer keys on P-256 / P-384 / P-521 whose public point has a leading zero octet in x or y, or (P-521) the top bit of a coordinate set or clear; all keys of the check are derived from fixed scalars',
     'wrong key, asymmetric case: valid signatures under four certificates that do not bind the key to the security source (other NODE-ID, no SAN, DNS SAN only, issuer not trusted)',
     'alterations inside the security block that leave the covered tuple unchanged (unprotected headers, structure) may go either way; removing the integrity block altogether is not detectable without policy and is not judged',
     'bundles without block CRCs so that alterations reach the security layer (CRC behaviour is C08)',
